@@ -35,6 +35,13 @@ func main() {
 		}
 		os.Exit(RunCheck(verifRoot(), *prop, *tier, seed, n, *only, *verbose))
 	}
+	if os.Args[1] == "replay" {
+		fs := flag.NewFlagSet("replay", flag.ExitOnError)
+		prop := fs.String("property", "", "property id")
+		file := fs.String("file", "", "vector file")
+		fs.Parse(os.Args[2:])
+		os.Exit(RunReplayOne(verifRoot(), *prop, *file))
+	}
 	fmt.Println("unknown command")
 	os.Exit(2)
 }
